@@ -11,6 +11,7 @@ bounded part (this file):
            vlib.x_readers.dimacs_lenient (which rejects out-of-range literals, wrong counts
            and tokens that are not integers of the format).
 """
+import contextlib
 import gc
 import itertools
 import os
@@ -52,12 +53,17 @@ def _render(F, header, varnames, route, tmpdir=None):
     raise ValueError(route)
 
 
+@contextlib.contextmanager
+def _nodir():
+    yield None
+
+
 def eval_roundtrip(spec, header, varnames, route):
     """None if the property holds for this formula and rendering, else (key, what)"""
     CNF = _CNF()
     F, exp = xf.build(spec)
     rows = [list(r) for r in exp['rows']]
-    with tempfile.TemporaryDirectory(prefix='verif_c06_') as tmp:
+    with (tempfile.TemporaryDirectory(prefix='verif_c06_') if route == 'file' else _nodir()) as tmp:
         try:
             text, path = _render(F, header, varnames, route, tmp)
         except Exception as e:
